@@ -39,6 +39,7 @@ type clipObs struct {
 	Pat   []int    `json:"pat"`
 	Perr  []int64  `json:"perr"`
 	Gap   []int64  `json:"gap"`
+	Gap2  []int64  `json:"gap2"` // the same after clipping every piece twice more (children of the child, and theirs)
 	Stray []int64  `json:"stray"`
 	Align []int    `json:"align"`
 	Desc  []string `json:"desc,omitempty"` // report only
@@ -75,7 +76,27 @@ func clipMeasure(v clipVec, variant int, o *clipObs) {
 	p, q := at(v.P), at(v.Q)
 	m := math.Max(math.Max(math.Abs(box.Min.X), math.Abs(box.Min.Y)), math.Max(math.Abs(box.Max.X), math.Abs(box.Max.Y)))
 	unit := math.Max(1e-9, 1e-14*m)
-	if moved {
+	if variant >= 100 {
+		// a segment ALONG a split line: one end moved off the line by a little less / more than the snapping
+		// distance, to either side (the piece in a child then runs along the child's edge within the tolerance)
+		c := variant - 100
+		pl = clipPlaces[(c/16)%2]
+		box = sdf.Box2{Min: v2.Vec{X: pl.ox, Y: pl.oy}, Max: v2.Vec{X: pl.ox + float64(2*v.K)*pl.u, Y: pl.oy + float64(2*v.K)*pl.u}}
+		p, q = at(v.P), at(v.Q)
+		m = math.Max(math.Max(math.Abs(box.Min.X), math.Abs(box.Min.Y)), math.Max(math.Abs(box.Max.X), math.Abs(box.Max.Y)))
+		unit = math.Max(1e-9, 1e-14*m)
+		dl := []float64{5e-10, -5e-10, 1.5e-9, -1.5e-9, 2.5e-9, -2.5e-9, 3.5e-9, -3.5e-9}[c%8]
+		tgt := &p
+		if (c/8)%2 == 1 {
+			tgt = &q
+		}
+		if v.P[0] == v.Q[0] {
+			tgt.X += dl
+		} else {
+			tgt.Y += dl
+		}
+		moved = true
+	} else if moved {
 		// one coordinate of one end point moved by about the snapping distance (kept inside the node box)
 		h := v.P[0]*7 + v.P[1]*13 + v.Q[0]*17 + v.Q[1]*19 + variant*23
 		size := float64(2*v.K) * pl.u
@@ -107,7 +128,7 @@ func clipMeasure(v clipVec, variant int, o *clipObs) {
 	perr, stray := 0.0, 0.0
 	align := 1
 	type iv struct{ a, b float64 }
-	var ivs []iv
+	var ivs, ivs2 []iv
 	for i := 0; i < 4; i++ {
 		r := sdf.VerifLineIntersect(quads[i], &sdf.Line2{p, q})
 		if r == nil {
@@ -129,6 +150,21 @@ func clipMeasure(v clipVec, variant int, o *clipObs) {
 			stray = math.Max(stray, math.Max(perp, math.Max(over, out)))
 		}
 		ivs = append(ivs, iv{math.Min(ts[0], ts[1]), math.Max(ts[0], ts[1])})
+		// two more levels: the piece as the child hands it to its own children, and they to theirs
+		for _, sub := range sdf.VerifQuads(quads[i]) {
+			r2 := sdf.VerifLineIntersect(sub, r)
+			if r2 == nil {
+				continue
+			}
+			for _, sub3 := range sdf.VerifQuads(sub) {
+				r3 := sdf.VerifLineIntersect(sub3, r2)
+				if r3 == nil {
+					continue
+				}
+				a, b := r3[0].Sub(p).Dot(d)/l2, r3[1].Sub(p).Dot(d)/l2
+				ivs2 = append(ivs2, iv{math.Min(a, b), math.Max(a, b)})
+			}
+		}
 		if !moved && pl.exact && i < len(v.T) && len(v.T[i]) == 4 {
 			for j := 0; j < 2; j++ {
 				t := float64(v.T[i][2*j]) / float64(v.T[i][2*j+1])
@@ -137,17 +173,21 @@ func clipMeasure(v clipVec, variant int, o *clipObs) {
 			}
 		}
 	}
-	sort.Slice(ivs, func(a, b int) bool { return ivs[a].a < ivs[b].a })
-	gap, reach := 0.0, 0.0
-	for _, x := range ivs {
-		if x.a > reach {
-			gap = math.Max(gap, x.a-reach)
+	longest := func(ivs []iv) float64 {
+		sort.Slice(ivs, func(a, b int) bool { return ivs[a].a < ivs[b].a })
+		gap, reach := 0.0, 0.0
+		for _, x := range ivs {
+			if x.a > reach {
+				gap = math.Max(gap, x.a-reach)
+			}
+			reach = math.Max(reach, x.b)
 		}
-		reach = math.Max(reach, x.b)
+		if reach < 1 {
+			gap = math.Max(gap, 1-reach)
+		}
+		return gap
 	}
-	if reach < 1 {
-		gap = math.Max(gap, 1-reach)
-	}
+	gap, gap2 := longest(ivs), longest(ivs2)
 	ex := 0
 	if !moved && pl.exact {
 		ex = 1
@@ -157,6 +197,7 @@ func clipMeasure(v clipVec, variant int, o *clipObs) {
 	o.Pat = append(o.Pat, pat)
 	o.Perr = append(o.Perr, satU(perr/unit))
 	o.Gap = append(o.Gap, satU(gap*ln/unit))
+	o.Gap2 = append(o.Gap2, satU(gap2*ln/unit))
 	o.Stray = append(o.Stray, satU(stray/unit))
 	o.Align = append(o.Align, align)
 	o.Desc = append(o.Desc, fmtf(box.Min.X, box.Min.Y, box.Max.X, box.Max.Y, p.X, p.Y, q.X, q.Y))
@@ -174,6 +215,11 @@ func c04Clip(args []string) error {
 				continue
 			}
 			clipMeasure(v, variant, &o)
+		}
+		if v.Owned == 1 && ((v.P[0] == v.Q[0] && v.P[0] == v.K) || (v.P[1] == v.Q[1] && v.P[1] == v.K)) {
+			for c := 0; c < 32; c++ {
+				clipMeasure(v, 100+c, &o)
+			}
 		}
 		emit(o)
 	})
